@@ -348,6 +348,9 @@ func drawOp(t *rapid.T, kind string, e genEnv) Op {
 		if chance(t, "userec", 25) {
 			op.F = true
 			drawSecret(t, &op, e, poolRecovery)
+			if chance(t, "bothfields", 25) {
+				op.X = pick(t, "codefield", "totp", "totp", "junk")
+			}
 		} else {
 			drawSecret(t, &op, e, poolTOTP)
 		}
@@ -362,6 +365,9 @@ func drawOp(t *rapid.T, kind string, e genEnv) Op {
 		if chance(t, "userec", 25) {
 			op.F = true
 			drawSecret(t, &op, e, poolRecovery)
+			if chance(t, "bothfields", 25) {
+				op.X = pick(t, "codefield", "smssess", "smssess", "junk")
+			}
 		} else {
 			drawSecret(t, &op, e, poolSMS)
 		}
